@@ -225,3 +225,100 @@ fn c06_take_best_concrete_pair_keeps_age() {
     assert!(seq == 42 && age == 2000);
     core::mem::forget(bmca);
 }
+
+
+// ---- modular call chain (see bmc::foreign_master::verif_fm): Bmca level ----
+struct NdAccept(bool);
+impl AcceptableMasterList for NdAccept {
+    fn is_acceptable(&self, _identity: crate::config::ClockIdentity) -> bool { self.0 }
+}
+impl<A> Bmca<A> {
+    /// stand-in for find_best_announce_message with the selection part of its contract only: the result is one
+    /// of the (at most two) candidates, None iff there is none. That it is a *maximum* of the data set comparison
+    /// is c05_find_best_is_a_maximum; take_best does not depend on which candidate wins.
+    pub(crate) fn verif_stub_find_best(announce_messages: impl IntoIterator<Item = BestAnnounceMessage>) -> Option<BestAnnounceMessage> {
+        let mut it = announce_messages.into_iter();
+        let a = it.next();
+        let b = it.next();
+        core::mem::forget(it);
+        match (a, b) {
+            (None, _) => None,
+            (Some(a), None) => Some(a),
+            (Some(a), Some(b)) => if kani::any() { Some(a) } else { Some(b) },
+        }
+    }
+}
+impl<A: AcceptableMasterList> Bmca<A> {
+    /// recording stand-in for Bmca::reregister_announce_message
+    pub(crate) fn verif_rec_reregister(&mut self, header: &Header, announce_message: &AnnounceMessage, age: Duration) {
+        verif_fm::rec_note(*header, *announce_message, age);
+    }
+}
+
+/// take_best_port_announce_message: Erbest is one of the messages take_qualified hands out (none -> None),
+/// tagged with the receiving port's identity, and exactly that message is re-registered WITH ITS OWN AGE
+/// (so the record keeps ageing and expires with the window); nothing is re-registered when there is no Erbest.
+#[kani::proof]
+#[kani::unwind(9)]
+#[kani::stub(ForeignMasterList::take_qualified_announce_messages, ForeignMasterList::verif_stub_take_qualified)]
+#[kani::stub(Bmca::reregister_announce_message, Bmca::verif_rec_reregister)]
+#[kani::stub(Bmca::find_best_announce_message, Bmca::verif_stub_find_best)]
+fn c06_take_best_reregisters_erbest_with_its_age() {
+    let own = any_port_identity();
+    let interval = any_time_interval();
+    let mut bmca = Bmca::new(NdAccept(kani::any()), interval, own);
+    verif_fm::rec_reset();
+
+    let best = bmca.take_best_port_announce_message();
+
+    assert!(best.is_some() == (verif_fm::offered() > 0));
+    match best {
+        Some(b) => {
+            assert!(b.identity == own);
+            assert!(verif_fm::rec_calls() == 1);
+            let (h, m, age) = verif_fm::rec_args().unwrap();
+            assert!(h == b.header && m == b.message);
+            assert!(age == verif_fm::dur_bits(b.age));
+        }
+        None => assert!(verif_fm::rec_calls() == 0),
+    }
+    kani::cover!(verif_fm::offered() == 2);
+    kani::cover!(verif_fm::offered() == 0);
+    core::mem::forget(bmca);
+}
+
+/// reregister_announce_message / register_announce_message: the message reaches the foreign-master list iff it
+/// is not from this port and its sender is acceptable -- with the age handed in (re-register) or age zero (new).
+#[kani::proof]
+#[kani::unwind(9)]
+#[kani::stub(ForeignMasterList::register_announce_message, ForeignMasterList::verif_rec_register)]
+fn c06_reregister_hands_age_to_list() {
+    let own = any_port_identity();
+    let interval = any_time_interval();
+    let accept: bool = kani::any();
+    let mut bmca = Bmca::new(NdAccept(accept), interval, own);
+    let a = verif_fm::any_announce();
+    let h = any_header();
+    let age: i128 = kani::any();
+    kani::assume(age >= 0 && age < (1i128 << 100));
+    let passes = a.header.source_port_identity != own && accept;
+
+    verif_fm::rec_reset();
+    bmca.reregister_announce_message(&h, &a, verif_fm::dur_from_bits(age));
+    assert!(verif_fm::rec_calls() == passes as u32);
+    if passes {
+        let (rh, rm, rage) = verif_fm::rec_args().unwrap();
+        assert!(rh == h && rm == a && rage == age);
+    }
+
+    verif_fm::rec_reset();
+    let r = bmca.register_announce_message(&h, &a);
+    assert!(r == passes && verif_fm::rec_calls() == passes as u32);
+    if passes {
+        let (rh, rm, rage) = verif_fm::rec_args().unwrap();
+        assert!(rh == h && rm == a && rage == 0);
+    }
+    kani::cover!(passes);
+    kani::cover!(!passes);
+    core::mem::forget(bmca);
+}
